@@ -144,6 +144,13 @@ impl<K: Ord + Clone, V: Clone> LeafNode<K, V> {
     /// ```
     #[inline]
     pub unsafe fn get_key_unchecked(&self, index: usize) -> &K {
+        #[cfg(kentbeck_bplustree3_verif)]
+        assert!(
+            index < self.keys.len(),
+            "VERIF-HOOK: get_key_unchecked({}) outside keys (len {})",
+            index,
+            self.keys.len()
+        );
         self.keys.get_unchecked(index)
     }
 
@@ -169,6 +176,13 @@ impl<K: Ord + Clone, V: Clone> LeafNode<K, V> {
     /// ```
     #[inline]
     pub unsafe fn get_value_unchecked(&self, index: usize) -> &V {
+        #[cfg(kentbeck_bplustree3_verif)]
+        assert!(
+            index < self.values.len(),
+            "VERIF-HOOK: get_value_unchecked({}) outside values (len {})",
+            index,
+            self.values.len()
+        );
         self.values.get_unchecked(index)
     }
 
@@ -196,6 +210,14 @@ impl<K: Ord + Clone, V: Clone> LeafNode<K, V> {
     /// ```
     #[inline]
     pub unsafe fn get_key_value_unchecked(&self, index: usize) -> (&K, &V) {
+        #[cfg(kentbeck_bplustree3_verif)]
+        assert!(
+            index < self.keys.len() && index < self.values.len(),
+            "VERIF-HOOK: get_key_value_unchecked({}) outside keys (len {}) or values (len {})",
+            index,
+            self.keys.len(),
+            self.values.len()
+        );
         (
             self.keys.get_unchecked(index),
             self.values.get_unchecked(index),
